@@ -206,7 +206,7 @@ class Gen:
                     break
                 static(want[1], r.randint(0, w - want[1])); break
             elif want is not None and not last:
-                c = r.choice([0.1, 0.1, 0.6, 0.9])               # prefix levels keep a vector
+                c = r.choice([0.1, 0.1, 0.1, 0.6, 0.9])          # prefix levels keep a vector
             if c < 0.40:
                 static()
             elif c < 0.55:
@@ -222,11 +222,18 @@ class Gen:
                     static()
                 else:
                     i = r.choice(iw); ww = r.randint(minw, min(w, 4)) if minw <= min(w, 4) else minw
+                    if side == "read" and r.random() < 0.8:
+                        # keep most dynamic reads inside the vector (bits beyond it read as undefined)
+                        fit = [(a, b) for a in iw for b in range(minw, min(w, 4) + 1) if (1 << a) - 1 + b <= w]
+                        if fit: i, ww = r.choice(fit)
                     self.count_acc("dyn_slice", lv, side)
                     lv.append(("ds", i, ww, self.idxexpr(i))); w = ww
                     self.stats["dyn"] += 1
             elif c < 0.87 and (want is None or want == "b") :
                 i = r.choice([1, 2, 3])
+                if side == "read" and r.random() < 0.8:
+                    ok = [a for a in (1, 2, 3) if (1 << a) <= w]
+                    if ok: i = r.choice(ok)
                 self.count_acc("dyn_index", lv, side)
                 lv.append(("db", i, w, self.idxexpr(i)))
                 self.stats["dyn"] += 1
@@ -237,6 +244,9 @@ class Gen:
                     static(); continue
                 parts = r.choice(ps)
                 i = r.choice([1, 2])
+                if side == "read" and r.random() < 0.8:
+                    pp = [q for q in ps if q in (2, 4)]
+                    if pp: parts = r.choice(pp); i = 1 if parts == 2 else 2
                 sp = r.choice(["part", "parts_idx", "parts_at"])
                 self.count_acc("dyn_" + sp, lv, side)
                 lv.append(("dp", sp, parts, w, self.idxexpr(i))); w = w // parts
@@ -323,7 +333,14 @@ class Gen:
         self.vars.append((vid, k, w))
         if depth > 0:
             self.stats["inner_decl"] += 1
+        self.note_alias(vid, e)
         return ["D", "D %d %s %d %s" % (vid, k, w, e)]
+
+    def note_alias(self, vid, e):
+        """a variable that is a bare copy of a defaulted variable may be driven by the Node_Default itself"""
+        t = e.split()
+        if len(t) == 2 and t[0] == "s" and int(t[1]) in self.dflt_vars:
+            self.dflt_vars.add(vid)
 
     def assign(self):
         r = self.rng
@@ -331,7 +348,9 @@ class Gen:
         if k == "b":
             return ["A", "A %d 0 %s" % (vid, self.bexpr(2))]
         if r.random() < 0.5:
-            return ["A", "A %d 0 %s" % (vid, self.uexpr(w, 2))]
+            e = self.uexpr(w, 2)
+            self.note_alias(vid, e)
+            return ["A", "A %d 0 %s" % (vid, e)]
         sels, rk, rw = self.path(w)
         rhs = self.bexpr(1) if rk == "b" else self.uexpr(rw, 1)
         return ["A", "A %d %d %s %s" % (vid, len(sels), " ".join(sels), rhs)]
@@ -350,6 +369,7 @@ class Gen:
         elif c < 0.65: e = "xor s %d cu %s" % (vid, self.const(w))
         else: e = self.uexpr(w, 1)
         self.stats["index_reassigned"] += 1
+        self.note_alias(vid, e)
         return ["A", "A %d 0 %s" % (vid, e)]
 
     def read(self):
@@ -399,17 +419,45 @@ class Gen:
         del self.vars[mark:]
         return b
 
+    def pin_cond(self):
+        r = self.rng
+        i = r.randrange(len(self.pins)); k, w = self.pins[i]
+        if k == "b": return "in %d" % i
+        return "bit in %d %d" % (i, r.randrange(w))
+
+    def cond(self, depth, pos):
+        """condition of an IF / ELSEIF / ELSE IF: sometimes an expression whose evaluation itself opens and
+        closes a conditional scope (library helpers like abs() / muxWord() / shr() do that internally)"""
+        r = self.rng
+        c = self.bexpr(2)
+        x = r.random()
+        if x < 0.25:
+            self.stats["cond_opens_scope_" + pos] = self.stats.get("cond_opens_scope_" + pos, 0) + 1
+            return "wsc %s %s" % (self.pin_cond(), c)
+        if x < 0.33 and depth == 0 and pos in ("if", "elseif"):
+            # the real muxWord(Bit, UInt) (IF inside); only where no scope is open: its internal mux is then unconditional
+            src = [("in %d" % i, pw) for i, (k, pw) in enumerate(self.pins) if k == "u" and pw % 2 == 0 and pw <= 8]
+            if src:
+                e, pw = r.choice(src)
+                self.stats["cond_opens_scope_" + pos] = self.stats.get("cond_opens_scope_" + pos, 0) + 1
+                return "eq muxw %d %s %s cu %s" % (pw, self.pin_cond(), e, self.const(pw // 2))
+        return c
+
     def ifstmt(self, depth):
         r = self.rng
         self.stats["depth"] = max(self.stats["depth"], depth + 1)
         nel = r.choice([0, 0, 0, 1, 1, 2, 3, self.max_chain, r.randint(0, self.max_chain)])
         brs = []
-        cond = self.bexpr(2)
+        cond = self.cond(depth, "if")
         brs.append(("IF", cond, self.scoped(depth + 1, r.randint(0, 4))))
         for _ in range(nel):
-            cond = self.bexpr(2)
             kind = "ELIF"
-            if r.random() < 0.2 and not cond.startswith("s "):
+            if r.random() < 0.2:
+                kind = "ELSP"
+            cond = self.cond(depth, "elseif" if kind == "ELIF" else "else_if_space")
+            if kind == "ELSP" and cond.startswith("s "):
+                kind = "ELIF"
+            if kind == "ELSP":
                 # ELSE IF with a space (IF nested in ELSE); a bare variable as condition is the
                 # known deviation elab_else_if_same_condition_refuted and lives in the corpus only
                 kind = "ELSP"; self.stats["else_if_space"] += 1
@@ -872,7 +920,8 @@ def main():
     progs = load_corpus()
     asts = {}
     acc_total = {}
-    gstats = dict(inner_decl=0, dyn=0, nested_path=0, shadow=0, xconst=0, else_if_space=0, var_index=0, index_reassigned=0, dyn_read=0, defaults=0, default_overwritten=0)
+    gstats = dict(inner_decl=0, dyn=0, nested_path=0, shadow=0, xconst=0, else_if_space=0, var_index=0, index_reassigned=0, dyn_read=0, defaults=0, default_overwritten=0,
+                  cond_opens_scope_if=0, cond_opens_scope_elseif=0, cond_opens_scope_else_if_space=0)
     for i in range(nprog):
         budget = rng.choice([6, 10, 14, 20, 28] if quick else [8, 14, 22, 32, 45])
         g = Gen(rng, rng.randint(1, max_depth), rng.choice([1, 2, max_chain]), budget)
@@ -883,7 +932,7 @@ def main():
         progs.append((pid, prog_text(pid, g.pins, ser(body, []), vecs)))
         asts[pid] = (g.pins, body, vecs)
         for k in gstats:
-            gstats[k] += 1 if g.stats[k] else 0
+            gstats[k] += 1 if g.stats.get(k) else 0
         for k, v in g.acc.items():
             acc_total[k] = acc_total.get(k, 0) + v
 
